@@ -32,6 +32,17 @@ func structOf(v int64) TStruct {
 	return TStruct{A: uint16(u), B: int32(u >> 7), C: [3]uint8{uint8(u >> 3), uint8(u >> 11), uint8(u >> 40)}, D: v * 0x100000001b3}
 }
 
+// RawStr is a user-defined variable-width encoder: a string is stored as its
+// bytes, so the empty string has a zero-length encoding (an "absent" leaf in
+// slim's leaf array). The Encoder interface is public API; slim's leaf array
+// keeps element boundaries itself, so such an encoder is legitimate.
+type RawStr struct{}
+
+func (RawStr) Encode(d interface{}) []byte          { return []byte(d.(string)) }
+func (RawStr) Decode(b []byte) (int, interface{}) { return len(b), string(b) }
+func (RawStr) GetSize(d interface{}) int          { return len(d.(string)) }
+func (RawStr) GetEncodedSize(b []byte) int        { return len(b) }
+
 var intKinds = []string{"i8", "i16", "i32", "i64", "u16", "u32", "u64", "int"}
 
 func (v *ValSpec) IsNone() bool { return v == nil || v.Kind == "none" }
@@ -40,7 +51,7 @@ func (v *ValSpec) Len() int {
 	switch v.Kind {
 	case "none":
 		return 0
-	case "str16", "bytesN":
+	case "str16", "bytesN", "rawstr":
 		return len(v.Strs)
 	}
 	return len(v.Ints)
@@ -70,6 +81,8 @@ func (v *ValSpec) Encoder() encode.Encoder {
 		return encode.Int{}
 	case "str16":
 		return encode.String16{}
+	case "rawstr":
+		return RawStr{}
 	case "bytesN":
 		return encode.Bytes{Size: v.N}
 	case "structLE":
@@ -142,7 +155,7 @@ func (v *ValSpec) Slice() interface{} {
 			s[i] = int(v.Ints[i])
 		}
 		return s
-	case "str16":
+	case "str16", "rawstr":
 		s := make([]string, n)
 		copy(s, v.Strs)
 		return s
@@ -183,7 +196,7 @@ func (v *ValSpec) At(i int) interface{} {
 		return uint64(v.Ints[i])
 	case "int":
 		return int(v.Ints[i])
-	case "str16":
+	case "str16", "rawstr":
 		return v.Strs[i]
 	case "bytesN":
 		return []byte(v.Strs[i])
@@ -217,7 +230,7 @@ func (v *ValSpec) RefEnc(i int) []byte {
 	case "str16":
 		s := v.Strs[i]
 		return append([]byte{byte(len(s) >> 8), byte(len(s))}, s...)
-	case "bytesN":
+	case "bytesN", "rawstr":
 		return []byte(v.Strs[i])
 	case "structLE", "structBE":
 		return refStruct(structOf(v.Ints[i]), v.Kind == "structBE")
@@ -271,7 +284,7 @@ func (v *ValSpec) Describe(max int) interface{} {
 	switch v.Kind {
 	case "none":
 		return nil
-	case "str16", "bytesN":
+	case "str16", "bytesN", "rawstr":
 		out := []string{}
 		for i, s := range v.Strs {
 			if i >= max {
@@ -388,7 +401,7 @@ func genVals(r *RNG, kind string, n int, style int) *ValSpec {
 	}
 	ids := runPattern(r, n, style)
 	switch kind {
-	case "str16":
+	case "str16", "rawstr":
 		v.Strs = make([]string, n)
 		var cur string
 		for i := 0; i < n; i++ {
@@ -424,6 +437,19 @@ func genVals(r *RNG, kind string, n int, style int) *ValSpec {
 				}
 			}
 			v.Strs[i] = cur
+		}
+		if kind == "rawstr" {
+			// all-empty encodings degenerate to the no-values representation
+			// (hits carry nil, as with encode.Dummy); keep one non-empty value
+			all := true
+			for _, s := range v.Strs {
+				if s != "" {
+					all = false
+				}
+			}
+			if all && n > 0 {
+				v.Strs[r.Intn(n)] = "z"
+			}
 		}
 	case "bytesN":
 		v.N = r.Range(1, 9)
@@ -489,7 +515,7 @@ func sameEnc(kind string, a, b int64) bool {
 	return a == b
 }
 
-var allValKinds = []string{"none", "i8", "i16", "i32", "i64", "u16", "u32", "u64", "int", "str16", "bytesN", "structLE", "structBE"}
+var allValKinds = []string{"none", "i8", "i16", "i32", "i64", "u16", "u32", "u64", "int", "str16", "bytesN", "structLE", "structBE", "rawstr"}
 
 // pickKind chooses a value kind; n is the number of keys (i8 cannot give n
 // distinct values beyond 256 but duplicates are legitimate input anyway).
@@ -503,6 +529,8 @@ func pickKind(r *RNG) string {
 		return "str16"
 	case 4:
 		return "bytesN"
+	case 5:
+		return "rawstr"
 	}
 	return allValKinds[r.Intn(len(allValKinds))]
 }
